@@ -103,6 +103,7 @@ def build_session(tsds, merges):
             sb.create_type(ts, n, par[n])
         for n, f in tsd["feats"].items():
             sb.create_feature(ts, n, f[0], f[1], elem=f[2])
+    sb.ts_new()   # an empty type system (index len(tsds)) for the "merging with an empty type system" clause
     before = []
     for i in range(len(tsds)):
         before.append(len(sb.ops)); sb.query(i, "dump")
@@ -224,12 +225,21 @@ def evaluate_group(ctx, out, tsds, tag, exhaustive_perms=True):
     perms = list(itertools.permutations(idx)) if exhaustive_perms else [tuple(idx), tuple(reversed(idx))]
     merges = [list(p) for p in perms]
     sb, before, results = build_session(tsds, merges)
-    base = len(tsds)
-    # groupings: merge(merge(a,b),c) and merge(a, merge(b,c)) through already merged results
+    base = len(tsds) + 1
+    empty = len(tsds)
+    # Re-merging a result (alone, with itself, with an empty type system in either order) and groupings
+    # (merge(merge(a,b),c), merge(a,merge(b,c)) through already merged results).  The indices below are those the results get
+    # when every earlier merge of the session succeeded (a failed merge allocates no type system); they are only looked at then.
+    P = len(merges)
+    r0 = base
+    extra = [("again-alone", [r0]), ("again-self", [r0, r0]), ("again-empty", [r0, empty]), ("empty-again", [empty, r0])]
+    nx = base + P + len(extra)
+    if k >= 2:
+        extra.append(("inner-left", idx[:-1])); extra.append(("outer-left", [nx, idx[-1]])); nx += 2
+        extra.append(("inner-right", idx[1:])); extra.append(("outer-right", [idx[0], nx])); nx += 2
     group_ops = []
-    if k == 3:
-        i1 = len(sb.ops); sb.ops.append({"op": "ts.merge", "inputs": [0, 1]})
-        group_ops.append(("left-inner", i1))
+    for tag_, inputs in extra:
+        group_ops.append((tag_, len(sb.ops))); sb.ops.append({"op": "ts.merge", "inputs": inputs})
     dump_ops = []
     n_results = len(merges) + len(group_ops)
     for r in range(n_results):
@@ -242,7 +252,7 @@ def evaluate_group(ctx, out, tsds, tag, exhaustive_perms=True):
         pure_ops.append(len(sb.ops)); sb.query(i, "identity")
         pure_ops.append(len(sb.ops)); sb.query(i, "disjoint")
     return sb.ops, {"before": before, "after": after, "results": results, "dumps": dump_ops, "perms": perms, "tsds": tsds, "tag": tag,
-                    "pure_ops": pure_ops}
+                    "pure_ops": pure_ops, "group_ops": group_ops}
 
 
 def check_group(out, ops, meta, io, mo):
@@ -314,6 +324,30 @@ def check_group(out, ops, meta, io, mo):
                 return
             if any(len(set(dict(t["types"]).get(n) for t in tsds if n in dict(t["types"]))) > 1 for n in names):
                 out.nontriv(json.dumps(tsds, sort_keys=True))
+        # 2b. merging a result again (alone, with itself, with an empty type system) changes nothing; grouping is irrelevant
+        # (the latter when the order-independence clause applies)
+        gops = meta.get("group_ops", [])
+        P = len(outcomes)
+        for gi, (gtag, opi) in enumerate(gops):
+            again = gtag.startswith("again") or gtag.startswith("empty")
+            if not again and spec[0] != "ok":
+                break
+            got = io[opi]
+            if gtag.startswith("inner"):
+                if "ok" not in got:
+                    out.oracle_failures.append({"scenario": sc, "tsds": tsds, "op_index": opi, "what": "merging a sub-tuple of a mergeable tuple failed", "actual": got})
+                    return
+                continue
+            if "ok" not in got:
+                out.oracle_failures.append({"scenario": sc, "tsds": tsds, "op_index": opi,
+                                            "what": ("merging a merge result again (%s) failed" % gtag) if again else ("grouped merge (%s) failed" % gtag), "actual": got})
+                return
+            d = io[meta["dumps"][P + gi]].get("ok")
+            if d is None or canon_dump(d, names) != dumps[0]:
+                out.oracle_failures.append({"scenario": sc, "tsds": tsds, "op_index": opi,
+                                            "what": ("merging a merge result again (%s) changes it" % gtag) if again else ("merge result depends on the grouping (%s)" % gtag),
+                                            "expected": dumps[0], "actual": canon_dump(d, names) if d else None})
+                return
     # 3. purity: inputs unchanged
     for b, a in zip(meta["before"], meta["after"]):
         if io[b] != io[a]:
@@ -399,6 +433,10 @@ def run(ctx, out, budget):
     pool = ["p.T%d" % i for i in range(8)]
     big = [[random_tsd(rng, pool, 2) for _ in range(rng.randint(2, 4))] for _ in range(bud(budget, 60, 1500))]
     run_groups(ctx, out, big, "rand", exhaustive_perms=False)
+    # user types without namespace named like the short name of a built-in (resolved by short name unless looked up exactly)
+    pool2 = ["p.T0", "p.T1", "p.T2", "Annotation", "TOP", "q.Annotation"]
+    big2 = [[random_tsd(rng, pool2, 2) for _ in range(rng.randint(2, 3))] for _ in range(bud(budget, 60, 1500))]
+    run_groups(ctx, out, big2, "shortnames", exhaustive_perms=False)
     out.partial = ["merge_perm_invariant (order/grouping independence): exhaustive small-pool correspondence only, no theorem"]
 
 
